@@ -345,6 +345,8 @@ def impl_and_oracle(mod, cassis, sc):
         msg = with_timeout(tmo, mod.oracle, cassis, sc, obs)
     except CaseTimeout:
         return obs, f"oracle did not finish within {tmo}s"
+    except Exception as e:  # noqa - an observation the oracle cannot even read is a failing input, not a crash of the check
+        return obs, f"oracle could not evaluate the observation ({type(e).__name__}: {e})"
     return obs, msg
 
 
@@ -405,7 +407,12 @@ def run_check(mod, tier, seed):
         for i, (sc, obs) in enumerate(zip(scenarios, observations)):
             if obs is None:
                 continue
-            t = mod.render(sc, obs)
+            try:
+                t = mod.render(sc, obs)
+            except Exception as e:  # noqa
+                t = None
+                if not any(j == i for j, _m in oracle_fail):
+                    oracle_fail.append((i, f"observation cannot be rendered for the model ({type(e).__name__}: {e})"))
             if t is None:
                 skipped += 1
                 continue
